@@ -23,6 +23,9 @@ package composite
 //@ props C05
 //@ ghost unpublished bool = false
 //@ let $xr = result composite.New
+//@ let $res = result (composite.Composer).Compose
+//@ site (managed.ConnectionPublisher).PublishConnection(_, _, $owner, $details)
+//@   assert [C09:publishes-this-reconciles-details-to-this-xr] $owner == $xr && $details == $res.ConnectionDetails
 //@ site (managed.ConnectionPublisher).UnpublishConnection(_, _, _, _)
 //@   update unpublished = err == nil
 //@ site (resource.Finalizer).RemoveFinalizer(_, _, $o)
@@ -47,3 +50,63 @@ package composite
 //@   assert [C05:no-forged-system-condition] forall i :: 0 <= i && i < len($cs) ==> !xpv1.IsSystemConditionType($cs[i].Type)
 //@ site (*composite.Unstructured).SetClaimConditionTypes(_, $ts...)
 //@   assert [C05:no-forged-claim-condition-type] forall i :: 0 <= i && i < len($ts) ==> !xpv1.IsSystemConditionType($ts[i])
+
+// C09: the XR's connection secret receives exactly the composed connection details that pass
+// the XRD's key filter (all of them when the filter is empty), with their values, and the
+// write is refused for a secret controlled by anybody else (C02).
+
+//@ func (*composite.APIFilteredSecretPublisher).PublishConnection
+//@ props C09
+//@ let $s = result resource.ConnectionSecretFor
+//@ loop range a.filter
+//@   invariant [C09:filter-set] forall k:Str :: m[k] <==> (exists j :: 0 <= j && j < done && a.filter[j] == k)
+//@   invariant [C09:filter-empty] (len(m) == 0) <==> (done == 0)
+//@ loop range c
+//@   invariant [C09:filter-set-kept] (forall k:Str :: m[k] <==> (exists j :: 0 <= j && j < len(a.filter) && a.filter[j] == k)) && ((len(m) == 0) <==> (len(a.filter) == 0))
+//@   invariant [C09:published-so-far] forall k:Str :: (k in $s.Data) <==> (k in visited && (len(a.filter) == 0 || m[k]))
+//@   invariant [C09:published-values] forall k:Str :: k in $s.Data ==> $s.Data[k] == c[k]
+//@   invariant [C09:visited-are-details] (forall k:Str :: k in visited ==> k in c) && $s.Data != c && $s.Data != nil
+//@   invariant [C09:details-untouched] forall k:Str :: ((k in c) <==> old(k in c)) && c[k] == old(c[k])
+//@ site (resource.Applicator).Apply(_, _, $o, $opts...)
+//@   assert [C09:secret-wanted] o.GetWriteConnectionSecretToReference() != nil && $o == $s
+//@   assert [C09:only-filtered-keys] forall k:Str :: (k in $s.Data) ==> ((k in c) && (len(a.filter) == 0 || contains(a.filter, k)))
+//@   assert [C09:every-allowed-key] forall k:Str :: ((k in c) && (len(a.filter) == 0 || contains(a.filter, k))) ==> (k in $s.Data)
+//@   assert [C09:values-from-details] forall k:Str :: (k in $s.Data) ==> $s.Data[k] == c[k]
+//@   assert [C09,C02:secret-controllable-by-owner] contains($opts, resource.ConnectionSecretMustBeControllableBy(o.GetUID()))
+
+// C09: connection details extracted from a composed resource carry only names that the
+// composition's extraction configs ask for; a config without the field its type needs is an
+// error; the resource's own connection data and the resource are only read.
+
+//@ func composite.ExtractConnectionDetails
+//@ props C09
+//@ frame fresh-only
+//@ loop range cfg
+//@   invariant [C09:keys-are-config-names] forall k:Str :: k in out ==> (exists j :: 0 <= j && j < done && old(cfg)[j].Name == k)
+//@   invariant [C09:configs-so-far-valid] forall j :: 0 <= j && j < done ==> (old(cfg)[j].Name != ""
+//@        && (old(cfg)[j].Type == "FromValue" ==> old(cfg)[j].Value != nil)
+//@        && (old(cfg)[j].Type == "FromConnectionSecretKey" ==> old(cfg)[j].FromConnectionSecretKey != nil)
+//@        && (old(cfg)[j].Type == "FromFieldPath" ==> old(cfg)[j].FromFieldPath != nil))
+//@ ensures [C09:only-configured-names] err == nil ==> forall k:Str :: k in result ==> (exists j :: 0 <= j && j < len(old(cfg)) && old(cfg)[j].Name == k)
+//@ ensures [C09:invalid-config-is-an-error] err == nil ==> forall j :: 0 <= j && j < len(old(cfg)) ==> (old(cfg)[j].Name != ""
+//@        && (old(cfg)[j].Type == "FromValue" ==> old(cfg)[j].Value != nil)
+//@        && (old(cfg)[j].Type == "FromConnectionSecretKey" ==> old(cfg)[j].FromConnectionSecretKey != nil)
+//@        && (old(cfg)[j].Type == "FromFieldPath" ==> old(cfg)[j].FromFieldPath != nil))
+
+//@ func (*composite.SecretStoreConnectionPublisher).PublishConnection
+//@ props C09
+//@ loop range p.filter
+//@   invariant [C09:filter-set] forall k:Str :: m[k] <==> (exists j :: 0 <= j && j < done && p.filter[j] == k)
+//@   invariant [C09:filter-empty] (len(m) == 0) <==> (done == 0)
+//@   invariant [C09:data-empty-before] (forall k:Str :: !(k in data)) && data != c && data != nil
+//@ loop range c
+//@   invariant [C09:filter-set-kept] (forall k:Str :: m[k] <==> (exists j :: 0 <= j && j < len(p.filter) && p.filter[j] == k)) && ((len(m) == 0) <==> (len(p.filter) == 0))
+//@   invariant [C09:published-so-far] forall k:Str :: (k in data) <==> (k in visited && (len(p.filter) == 0 || m[k]))
+//@   invariant [C09:published-values] forall k:Str :: k in data ==> data[k] == c[k]
+//@   invariant [C09:visited-are-details] (forall k:Str :: k in visited ==> k in c) && data != c && data != nil
+//@   invariant [C09:details-untouched] forall k:Str :: ((k in c) <==> old(k in c)) && c[k] == old(c[k])
+//@ site (managed.ConnectionPublisher).PublishConnection(_, _, $o, $d)
+//@   assert [C09:store-secret-wanted] o.GetPublishConnectionDetailsTo() != nil && $o == o
+//@   assert [C09:only-filtered-keys] forall k:Str :: (k in $d) ==> ((k in c) && (len(p.filter) == 0 || contains(p.filter, k)))
+//@   assert [C09:every-allowed-key] forall k:Str :: ((k in c) && (len(p.filter) == 0 || contains(p.filter, k))) ==> (k in $d)
+//@   assert [C09:values-from-details] forall k:Str :: (k in $d) ==> $d[k] == c[k]
